@@ -101,6 +101,11 @@ def gen(seed: int, tier: str) -> dict[str, Any]:
             ops.append({"t": round(t, 6), "op": "tg", "n": tg, "addr": rng.choice(pool),
                         "apci": rng.choice(["write", "write", "response", "read"]),
                         "data": rng.choice(["bin", "b1", "b2"]), "dir": rng.choice(["in", "in", "out"])})
+            if rng.random() < 0.15:
+                # the registry changes from inside the dispatch (a device_updated_cb / process hook removing or adding a
+                # device): devices registered throughout must still each process the telegram once, in order
+                ops[-1]["act"] = {"by": rng.randrange(nd), "a": rng.choice(["remove_self", "remove", "add"]),
+                                  "j": rng.randrange(nd)}
         elif r < 0.65:
             ops.append({"t": round(t, 6), "op": "add", "i": rng.randrange(nd)})
         elif r < 0.85:
@@ -146,6 +151,7 @@ def run(plan: dict[str, Any]) -> dict[str, Any]:
 
     by_tg: dict[int, dict[str, Any]] = {}
     keep: list[Any] = []
+    acts: dict[int, dict[str, Any]] = {}
 
     def rec_for(tg):
         r = by_tg.get(id(tg))
@@ -186,6 +192,28 @@ def run(plan: dict[str, Any]) -> dict[str, Any]:
                     if r["raised"] is None:
                         r["raised"] = (i, type(exc).__name__)
                     raise
+                finally:
+                    act = acts.pop(id(tg), None)
+                    if act is not None and act["by"] != i:
+                        acts[id(tg)] = act
+                    elif act is not None:
+                        j = i if act["a"] == "remove_self" else act["j"]
+                        try:
+                            if act["a"] == "add":
+                                xknx.devices.async_add(devobjs[j])
+                                registered.append(j)
+                            else:
+                                xknx.devices.async_remove(devobjs[j])
+                                registered.remove(j)
+                            r.setdefault("changed", set()).add(j)
+                            R.extra_faults["registry_change_in_dispatch"] += 1
+                        except Exception:  # pylint: disable=broad-except
+                            now_in = any(d is devobjs[j] for d in xknx.devices)
+                            if now_in and j not in registered:
+                                registered.append(j)
+                            elif not now_in and j in registered:
+                                registered.remove(j)
+                            r.setdefault("changed", set()).add(j)
 
             dev.process = wrapped
             devobjs.append(dev)
@@ -249,9 +277,13 @@ def run(plan: dict[str, Any]) -> dict[str, Any]:
                            "read": GroupValueRead()}[op["apci"]]
                 a = op["addr"]
                 dst = InternalGroupAddress(a) if isinstance(a, str) else GroupAddress(a)
-                xknx.telegrams.put_nowait(Telegram(
+                tg_ = Telegram(
                     destination_address=dst, payload=payload,
-                    direction=TelegramDirection.OUTGOING if op["dir"] == "out" else TelegramDirection.INCOMING))
+                    direction=TelegramDirection.OUTGOING if op["dir"] == "out" else TelegramDirection.INCOMING)
+                if op.get("act"):
+                    keep.append(tg_)
+                    acts[id(tg_)] = op["act"]
+                xknx.telegrams.put_nowait(tg_)
             # registry view must equal the model at all times
             got = [devobjs.index(d) for d in xknx.devices]
             if got != registered:
@@ -280,6 +312,11 @@ def run(plan: dict[str, Any]) -> dict[str, Any]:
     for d in dispatches:
         want = [i for i in d["snapshot"] if d["addr"] in addr_sets[i]]
         calls = d["calls"]
+        if d.get("changed"):
+            # devices added or removed from inside this dispatch are unjudged for it; all others as usual
+            ch = d["changed"]
+            calls = [c for c in calls if c not in ch]
+            want = [w for w in want if w not in ch]
         if d["raised"] is not None:
             cut = calls.index(d["raised"][0]) + 1 if d["raised"][0] in calls else len(calls)
             want_c = want[:cut]
